@@ -5,6 +5,12 @@
  3. exhaustive correspondence: every (recursive, user_requested, internal) x every
     spelling of optional_features -> implementation vs model evaluated in Coq
  4. exhaustive property-level oracle on the implementation itself
+ 5. the places where generated code obtains the options it hands to callees (function_wrappers.py, translated into the
+    scope tables of C20_gen.v, model coq/Opts/Scope*.v): every runnable value entered at BOTH entry points -- the
+    FunctionScope of a converted def and the inline with_function_scope of a converted lambda -- directly and through
+    the embedded source form in the real ag__, one after the other in one process (history independence, scopes kept
+    alive), the same sequence replayed in the Coq model; end to end with a def and with a lambda as converted entity
+    under sequences of option values.  Failures carry a replay script confirmed in a fresh interpreter.
 """
 import ast
 import itertools
@@ -70,6 +76,161 @@ def obj_term(o, Feature):
                                     vlib.coq_bool(o.internal_convert_user_code), '; '.join(fs))
 
 
+SCOPE_KIND = {'KFunction': 'function', 'KLambda': 'lambda'}
+_REPLAYED = set()
+
+
+def opt_src(o, Feature):
+    """Evaluable source of an options value (names as in `from malt.core.converter import *`)."""
+    fs = sorted(f.name for f in o.optional_features)
+    return 'ConversionOptions(recursive=%r, user_requested=%r, internal_convert_user_code=%r, optional_features=(%s))' % (
+        o.recursive, o.user_requested, o.internal_convert_user_code, ''.join('Feature.%s, ' % n for n in fs))
+
+
+# replay of a sequence of scope entries in a fresh process: every scope made so far is re-examined after every entry
+SCOPE_SCRIPT = """import sys
+from malt.core.converter import ConversionOptions, Feature
+from malt.core import converter
+from malt.impl import api
+from malt.pyct import parser
+ag__ = api.PyToPy().get_extra_locals()['ag__']
+entries = [
+%s]
+alive, bad = [], 0
+for n, (kind, o) in enumerate(entries):
+    src = parser.unparse(o.to_ast(), include_encoding_marker=False).strip()
+    if kind == 'function':
+        s = eval('ag__.FunctionScope("f", "fscope", %%s).__enter__()' %% src, {'ag__': ag__})
+        s.__exit__(None, None, None)
+    else:
+        s = eval('ag__.with_function_scope(lambda lscope: lscope, "lscope", %%s)' %% src, {'ag__': ag__})
+    alive.append((kind, o, s))
+    for m, (k, p, t) in enumerate(alive):
+        if t.options.as_tuple() != p.as_tuple() or t.callopts.as_tuple() != p.call_options().as_tuple():
+            bad += 1
+            print('MISMATCH after entry %%d: %%s scope number %%d entered with %%r reports options=%%r and hands callees %%r (expected %%r)'
+                  %% (n, k, m, p.as_tuple(), t.options.as_tuple(), t.callopts.as_tuple(), p.call_options().as_tuple()))
+print('mismatches:', bad)
+sys.exit(1 if bad else 0)
+"""
+
+
+def run_script(script, timeout=120):
+    """Run a replay script against the tree under check in a fresh interpreter -> (exit status, output)."""
+    import subprocess
+    import sys
+    env = dict(os.environ)
+    env['PYTHONPATH'] = vlib.REPO
+    try:
+        p = subprocess.run([sys.executable, '-c', script], env=env, stdout=subprocess.PIPE, stderr=subprocess.STDOUT,
+                           timeout=timeout, universal_newlines=True)
+        return p.returncode, p.stdout
+    except Exception as e:   # noqa
+        return -1, '%s: %s' % (type(e).__name__, e)
+
+
+def confirmed_replay(candidates):
+    """First candidate script that shows the failure (exit status 1) in a fresh process -> replay fields."""
+    for label, script in candidates:
+        rc, out = run_script(script)
+        if rc == 1:
+            return {'replay_script': script, 'replay_scenario': label, 'replay_output': out[-1500:],
+                    'replay': "PYTHONPATH=%s /venv/bin/python -c '<replay_script>'   # exits 1" % vlib.REPO}
+    return {'replay_note': 'observed in the process of the check (after the entries in `history`); none of the short '
+                           'scenarios tried in a fresh process showed it', 'replay_scenarios_tried': [l for l, _ in candidates]}
+
+
+def scope_failure(kind, how, o, seen_o, seen_c, trace, Feature, then=None):
+    """A scope entered with `o` reports seen_o / hands callees seen_c.  The value it reports is the one it was really
+    built from, i.e. an earlier entry: the replay is that entry followed by this one."""
+    entry = lambda k, src: "    (%r, %s),\n" % (SCOPE_KIND[k], src)   # noqa
+    b = opt_src(o, Feature)
+    other = 'KFunction' if kind == 'KLambda' else 'KLambda'
+    cands = []
+    if then is not None:
+        what = ('a %s scope that is still alive reports other options / callee options once the next scope has been entered' % SCOPE_KIND[kind])
+        cands.append(('this scope, then the next one', entry(kind, b) + entry(then[0], opt_src(then[1], Feature))))
+    else:
+        what = ('the %s scope generated code enters with some options does not report these options / does not hand callees their '
+                'call_options() (after scopes were entered with other values in the same process)' % SCOPE_KIND[kind])
+        try:
+            a = opt_src(seen_o, Feature)
+            cands.append(('a %s scope entered with the options this scope reports, then this one' % SCOPE_KIND[kind], entry(kind, a) + entry(kind, b)))
+            cands.append(('a %s scope entered with the options this scope reports, then this one' % SCOPE_KIND[other], entry(other, a) + entry(kind, b)))
+        except Exception:   # noqa
+            pass
+        cands.insert(0, ('this entry alone', entry(kind, b)))
+    detail = 'reports options=%r, hands callees %r; expected %r' % (
+        getattr(seen_o, 'as_tuple', lambda: seen_o)(), getattr(seen_c, 'as_tuple', lambda: seen_c)(), o.call_options().as_tuple())
+    if what in _REPLAYED:      # the verdict reports the first failure of a kind: later ones need no replay
+        return (what, b, detail)
+    _REPLAYED.add(what)
+    cands.append(('the last 150 entries of the check', ''.join(entry(k, src) for k, src in trace[-150:])))
+    extra = confirmed_replay([(l, SCOPE_SCRIPT % e) for l, e in cands])
+    extra['history'] = ['%s %s' % (SCOPE_KIND[k], src) for k, src in trace[-12:]]
+    extra['entry'] = '%s scope (%s form of the options)' % (SCOPE_KIND[kind], how)
+    return (what, b, detail, extra)
+
+
+# replay of conversions of a module-level lambda under a sequence of options in a fresh process
+LAMBDA_SCRIPT = """import sys, linecache
+from malt.core.converter import ConversionOptions, Feature
+from malt.core import converter
+from malt.impl import api, conversion
+import types
+SRC = %r
+mod = types.ModuleType('c20_lambda_mod')
+sys.modules[mod.__name__] = mod
+ns = mod.__dict__
+exec(compile(''.join(SRC), '<c20-lambda>', 'exec'), ns)
+linecache.cache['<c20-lambda>'] = (0, None, SRC, '<c20-lambda>')
+relay, helper = ns['relay%d'], ns['helper%d']
+handed = []
+orig = conversion.is_in_allowlist_cache
+def rec(f, options):
+    handed.append((f, options))
+    return orig(f, options)
+conversion.is_in_allowlist_cache = rec
+requests = [
+%s]
+bad = 0
+for n, o in enumerate(requests):
+    del handed[:]
+    res = api._convert_actual(relay, converter.ProgramContext(options=o))(1)
+    got = [x.as_tuple() for g, x in handed if g is helper]
+    if got != [o.call_options().as_tuple()] or res != 2:
+        bad += 1
+        print('MISMATCH request %%d: lambda converted under %%r; the function it calls was handed %%r, expected %%r (result %%r)'
+              %% (n, o.as_tuple(), got, o.call_options().as_tuple(), res))
+print('mismatches:', bad)
+sys.exit(1 if bad else 0)
+"""
+
+
+def lambda_failure(lines, si, o, got, own, res, history, Feature):
+    what = ('the function called from a converted lambda is not handed the call_options() of the options the lambda was converted '
+            'under (lambdas were converted under other options before in the same process)')
+    b = opt_src(o, Feature)
+    detail = 'lambda `%s` called with 1 returned %r; its callee was handed %r (its own scope: %r); expected %r' % (
+        lines[-1].strip(), res, [x.as_tuple() for x in got], [x.as_tuple() for x in own], o.call_options().as_tuple())
+    if what in _REPLAYED:
+        return (what, b, detail)
+    _REPLAYED.add(what)
+    req = lambda srcs: ''.join('    %s,\n' % x for x in srcs)   # noqa
+    cands = [('this request alone', req([b]))]
+    for x in got[:1]:
+        # a lambda scope that hands callees x was built from options with these attributes (user_requested is dropped)
+        a = 'ConversionOptions(recursive=%r, user_requested=False, internal_convert_user_code=%r, optional_features=(%s))' % (
+            x.recursive, o.internal_convert_user_code, ''.join('Feature.%s, ' % n for n in sorted(f.name for f in x.optional_features)))
+        cands.append(('a request whose callee options are the ones observed, then this request', req([a, b])))
+        cands.append(('the same with user_requested as in this request', req([a.replace('user_requested=False', 'user_requested=%r' % o.user_requested), b])))
+    cands.append(('the last 40 lambda requests of the check', req(history[-40:])))
+    extra = confirmed_replay([(l, LAMBDA_SCRIPT % (lines, si, si, e)) for l, e in cands])
+    extra['source'] = ''.join(lines)
+    extra['history'] = history[-12:]
+    return (what, b, detail, extra)
+
+
 def generate():
     text = c20_options.translate(vlib.REPO)
     vlib.write_if_changed(os.path.join(vlib.COQ, 'Generated', 'C20_gen.v'), text)
@@ -79,6 +240,7 @@ def check(run):
     run.rule = ('exhaustive: every (recursive, user_requested, internal_convert_user_code) in bool^3 x every spelling of '
                 'optional_features (None, each single Feature, every subset as a tuple, 24 seeded containers with '
                 'duplicates/other orders); distinct non-trivial = distinct as_tuple() values reached')
+    _REPLAYED.clear()
     # 1. regenerate
     try:
         generate()
@@ -89,7 +251,7 @@ def check(run):
         tie_msg = str(e)
     # 2. proofs
     if tie_ok:
-        vlib.standard_proof_step(run, ['Opts/OptionsCheck.vo'])
+        vlib.standard_proof_step(run, ['Opts/OptionsCheck.vo', 'Opts/ScopeCheck.vo'])
     # 3 + 4 on the implementation
     from malt.core import converter
     from malt.impl import api
@@ -213,6 +375,10 @@ def check(run):
     order = list(range(len(objs)))
     random.Random(run.seed * 7 + 3).shuffle(order)
     nscopes = 0
+    scope_cases = []          # the same sequence of entries, replayed in the Coq model of the scopes (step 3)
+    scope_case_cap = 1600
+    scope_trace = []          # (kind, options source) of every entry made so far, for replays
+    prev_scope = None
     for idx in order[:1200]:
         c = objs[idx]
         arg = c[4]
@@ -235,9 +401,51 @@ def check(run):
             failures.append(('the options a FunctionScope hands to callees are not the call_options() of the options it was entered with '
                              '(after scopes were entered with other, short-lived values)', desc(c),
                              'scope number %d: callopts=%r expected=%r' % (nscopes, got.as_tuple(), want.as_tuple())))
+        if len(scope_cases) < scope_case_cap:
+            scope_cases.append('(KFunction, %s, %s, %s)' % (obj_term(o, Feature), obj_term(fs.options, Feature), obj_term(got, Feature)))
         del o, want, got, fs
+        # the same at the other entry point of generated code -- the inline scope of a converted lambda -- and at both
+        # entry points as generated code spells them (the embedded source form of the options, evaluated in the real
+        # ag__ namespace), with user_requested as in the enumerated value.  All entries are made one after the other
+        # in this one process: what a body sees must not depend on the scopes entered before, and the scope of the
+        # previous entry, still alive, must not change when the next one is made.
+        o2 = CO(recursive=c[0], user_requested=c[1], internal_convert_user_code=c[2],
+                optional_features=type(arg)(arg) if isinstance(arg, (list, set)) else arg)
+        try:
+            src2 = ast.unparse(o2.to_ast())
+        except Exception:   # noqa  (reported by the oracle above)
+            src2 = None
+        entries = [('KLambda', 'direct', lambda: function_wrappers.with_function_scope(lambda lscope: lscope, 'lscope', o2))]
+        if src2 is not None:
+            entries += [('KFunction', 'embedded', lambda: eval('ag__.FunctionScope("f", "fscope", %s).__enter__()' % src2, dict(extra))),
+                        ('KLambda', 'embedded', lambda: eval('ag__.with_function_scope(lambda lscope: lscope, "lscope", %s)' % src2, dict(extra)))]
+        for kind, how, thunk in entries:
+            try:
+                sc = thunk()
+                seen_o, seen_c = sc.options, sc.callopts
+                if kind == 'KFunction':
+                    sc.__exit__(None, None, None)
+            except Exception as e:   # noqa
+                failures.append(('entering a %s scope raised %s: %s' % (SCOPE_KIND[kind], type(e).__name__, e), opt_src(o2, Feature), how))
+                continue
+            nscopes += 1
+            scope_trace.append((kind, opt_src(o2, Feature)))
+            wantc = o2.call_options()
+            if not (seen_o == o2 and seen_o.as_tuple() == o2.as_tuple() and seen_c == wantc and hash(seen_c) == hash(wantc)
+                    and seen_c.as_tuple() == wantc.as_tuple()):
+                failures.append(scope_failure(kind, how, o2, seen_o, seen_c, scope_trace, Feature))
+            if prev_scope is not None:
+                ps, po, pkind, p_o, p_c = prev_scope
+                if not (ps.options.as_tuple() == p_o and ps.callopts.as_tuple() == p_c):
+                    failures.append(scope_failure(pkind, 'alive', po, ps.options, ps.callopts, scope_trace, Feature,
+                                                  then=(kind, o2)))
+            prev_scope = (sc, o2, kind, seen_o.as_tuple(), seen_c.as_tuple())
+            if len(scope_cases) < scope_case_cap:
+                scope_cases.append('(%s, %s, %s, %s)' % (kind, obj_term(o2, Feature), obj_term(seen_o, Feature), obj_term(seen_c, Feature)))
+    prev_scope = None
     run.count(nscopes)
     run.extra['function_scopes_entered'] = nscopes
+    run.extra['scope_entries_replayed_in_model'] = len(scope_cases)
 
     # 2c. options key the conversion cache: one function (and a nested def in it) converted by the real transpiler under
     # sequences of option values that differ in one attribute (both orders) or not at all; the FunctionScope entered
@@ -296,6 +504,71 @@ def check(run):
         function_wrappers.FunctionScope.__init__ = orig_init
     run.count(nreq)
     run.extra['cache_requests_checked'] = nreq
+
+    # 2c'. the same with a LAMBDA as the converted entity (a lambda defined outside converted code: it gets the inline
+    # scope ag__.with_function_scope(...), not a FunctionScope `with`): converted under sequences of option values in
+    # this one process, the function it calls must be handed exactly the call_options() of the options of that request
+    # (observed where converted_call first uses them), and when that function is converted its own scope carries them
+    import linecache
+    import sys
+    import types
+    from malt.impl import conversion as _conversion_l
+    lam_modules = []
+    handed = []
+    orig_inal = _conversion_l.is_in_allowlist_cache
+
+    def rec_inal(f, options):
+        handed.append((f, options))
+        return orig_inal(f, options)
+    lam_seqs = seqs[:45 if run.tier == 'quick' else 300]
+    nlam = 0
+    lam_history = []
+    function_wrappers.FunctionScope.__init__ = rec_init
+    _conversion_l.is_in_allowlist_cache = rec_inal
+    try:
+        for si, seq in enumerate(lam_seqs):
+            fname = '<c20-lambda-%d>' % si
+            lines = ['def helper%d(y):\n' % si, '    return y + 1\n', 'relay%d = lambda x: helper%d(x)\n' % (si, si)]
+            mod = types.ModuleType('c20_lambda_mod_%d' % si)      # parse_entity looks a lambda up through its module
+            sys.modules[mod.__name__] = mod
+            lam_modules.append(mod.__name__)
+            ns = mod.__dict__
+            exec(compile(''.join(lines), fname, 'exec'), ns)
+            linecache.cache[fname] = (0, None, lines, fname)
+            relay, helper = ns['relay%d' % si], ns['helper%d' % si]
+            stop = False
+            for (r, u, i, f) in seq:
+                o = CO(recursive=r, user_requested=u, internal_convert_user_code=i, optional_features=f)
+                del seen_scopes[:]
+                del handed[:]
+                try:
+                    nf = _api._convert_actual(relay, converter.ProgramContext(options=o))
+                    res = nf(1)
+                except Exception as e:   # noqa
+                    failures.append(('conversion of a lambda under a sequence of option values raised %s: %s' % (type(e).__name__, str(e)[:200]),
+                                     opt_src(o, Feature), repr(seq)))
+                    stop = True
+                    break
+                nlam += 1
+                lam_history.append(opt_src(o, Feature))
+                want = o.call_options()
+                got = [x for g, x in handed if g is helper]
+                own = [x for n, x in seen_scopes if n == 'helper%d' % si]
+                ok = res == 2 and len(got) == 1 and got[0] == want and got[0].as_tuple() == want.as_tuple() \
+                    and all(x.as_tuple() == want.as_tuple() for x in own)
+                if not ok:
+                    failures.append(lambda_failure(lines, si, o, got, own, res, lam_history, Feature))
+                    stop = True
+                    break
+            if stop:
+                break
+    finally:
+        function_wrappers.FunctionScope.__init__ = orig_init
+        _conversion_l.is_in_allowlist_cache = orig_inal
+        for name in lam_modules:
+            sys.modules.pop(name, None)
+    run.count(nlam)
+    run.extra['lambda_entity_requests_checked'] = nlam
 
     # 2d. entering through a functools.partial (one and two levels) or directly makes no difference to the options the
     # converted code runs under: same FunctionScope entries for converted_call(g, (1,), options=o) and
@@ -362,28 +635,38 @@ def check(run):
     corr_bad = None
     if tie_ok:
         body = ['From Coq Require Import List String Bool.', 'Import ListNotations.',
-                'Require Import MV.Opts.OptionsSyntax MV.Generated.C20_gen MV.Opts.Options MV.Opts.OptionsCheck.',
+                'Require Import MV.Opts.OptionsSyntax MV.Generated.C20_gen MV.Opts.Options MV.Opts.OptionsCheck MV.Opts.Scope MV.Opts.ScopeCheck.',
                 'Definition cases : list case := [', ';\n'.join(cases), '].',
                 'Definition reps : list nat := [%s].' % '; '.join(str(r) for r in reps),
-                'Eval vm_compute in (failing cases, failing_reps cases reps).']
+                'Definition scases : list scase := [', ';\n'.join(scope_cases), '].',
+                'Eval vm_compute in (failing cases, failing_reps cases reps, failing_scopes scases).']
         rc, out = vlib.coq_eval('C20', 'cases', '\n'.join(body), timeout=600)
         import re
-        m = re.search(r'=\s*\((\[[^\]]*\]|nil)\s*,\s*(\[[^\]]*\]|nil)\)', out)
+        m = re.search(r'=\s*\((\[[^\]]*\]|nil)\s*,\s*(\[[^\]]*\]|nil)\s*,\s*(\[[^\]]*\]|nil)\)', out)
         if rc != 0 or not m:
             corr_bad = 'model evaluation failed: ' + out[-800:]
         else:
             bad = [int(x) for x in re.findall(r'\d+', m.group(1))] + [int(x) for x in re.findall(r'\d+', m.group(2))]
             run.extra['traces_validated_against_impl'] = len(cases)
+            sbad = [int(x) for x in re.findall(r'\d+', m.group(3))]
+            run.extra['scope_entries_validated_against_model'] = len(scope_cases)
             if bad:
                 corr_bad = 'model and implementation disagree on objects %s e.g. %s' % (bad[:10], desc(objs[bad[0]]))
+            elif sbad:
+                corr_bad = ('the scope model (every entry builds its scope from its own options) and the implementation disagree on '
+                            'entries %s of the sequence of scope entries, e.g. %s' % (sbad[:10], scope_cases[sbad[0]]))
     # 5. verdict
     seen = set()
-    for what, d1, d2 in failures:
+    for fl in failures:
+        what, d1, d2 = fl[:3]
         if what in seen:
             continue
         seen.add(what)
-        run.violation(what, {'what': what, 'input': d1, 'other': d2,
-                             'replay': 'PYTHONPATH=/repo /venv/bin/python -c "from malt.core.converter import *; o=%s; print(o.as_tuple())"' % d1})
+        doc = {'what': what, 'input': d1, 'other': d2,
+               'replay': 'PYTHONPATH=/repo /venv/bin/python -c "from malt.core.converter import *; o=%s; print(o.as_tuple())"' % d1}
+        if len(fl) > 3:
+            doc.update(fl[3])
+        run.violation(what, doc)
     if not failures:
         if not tie_ok:
             run.violation('translator no longer recognises converter.py: ' + tie_msg,
